@@ -759,12 +759,15 @@ def oracle_c12(case, ir):
             if want is None:
                 return {"what": f"defining product is negative at index {j}: T = {float(T)}"}
             last = (j == len(x) - 1)
+            if last and N is not None and not exact_inputs(case) and abs(sum(x) - N * t) < F(1, 10 ** 9):
+                continue   # the float total may land on either side of N*t: the final-sample rule is undecided
             if last and N is not None and sum(x) > N * t and test != "wald_sprt":
                 want = F(0)
             if abs(ir["hist"][j] - float(want)) > 1e-7 * max(1.0, float(want)):
                 return {"what": f"{test}: history[{j}] = {ir['hist'][j]!r} but min(1, 1/T_j) = {float(want)!r} "
                                 f"with T_j the defining product (mu_j={float(m)}, parameter={float(pj)})"}
-        if N is not None and sum(x) > N * t and test in ("alpha_mart", "betting_mart"):
+        if N is not None and sum(x) > N * t and test in ("alpha_mart", "betting_mart") and \
+                (exact_inputs(case) or abs(sum(x) - N * t) >= F(1, 10 ** 9)):
             if ir["hist"][-1] != 0.0 or (init["ro"] and ir["p"] != 0.0):
                 return {"what": f"sample total {float(sum(x))} > N t = {float(N * t)} but the last p-value is {ir['hist'][-1]!r}, overall {ir['p']!r}"}
         return None
